@@ -88,6 +88,20 @@ mut("C12", "dismax-replace-drops-b-on-tie", B,
     "            elif b_max < minquality:\n                # If the b matcher can't contribute, return a\n                return a.replace(minquality)",
     "            elif b_max <= a_max:\n                # If the b matcher can't contribute, return a\n                return a.replace(minquality)")
 
+# ---- regenerated against the integrated tree (the agents' original patches no longer applied)
+mut("C02", "cancel-deletes-by-index-prefix", "src/whoosh/writing.py",
+    "        self.schema._dyn_fields = dict(dynfields)\n        self._close_segment()\n        self._finish()\n",
+    "        self.schema._dyn_fields = dict(dynfields)\n        self._close_segment()\n        # remove the files of the abandoned segment\n        prefix = \"%s_\" % self.indexname\n        for name in self.storage.list():\n            if name.startswith(prefix) and not name.endswith(\"LOCK\"):\n                self.storage.delete_file(name)\n        self._finish()\n")
+mut("C08", "override-not-in-column", "src/whoosh/writing.py",
+    "            cv = field.to_column_value(customval) if has_cv else None",
+    "            cv = field.to_column_value(value) if has_cv else None")
+mut("C18", "buffered-close-drops-buffer", "src/whoosh/writing.py",
+    "    def close(self):\n        self.commit(restart=False)\n",
+    "    def close(self):\n        if self.period:\n            self.timer.cancel()\n        self.writer.commit(**self.commitargs)\n")
+mut("C19", "fuzzy-ignores-prefix", "src/whoosh/query/terms.py",
+    "        for word in ixreader.terms_within(self.fieldname, self.text,\n                                          self.maxdist,\n                                          prefix=self.prefixlength):",
+    "        for word in ixreader.terms_within(self.fieldname, self.text,\n                                          self.maxdist):")
+
 def main():
     only = sys.argv[1:] 
     wt = tempfile.mkdtemp(prefix="vf-mkmut-")
